@@ -188,6 +188,11 @@ func (m *Manager) trySyncNextBlock(ctx context.Context, daHeight uint64) error {
 			m.dataCache.SetSeen(dataSeenKey(h.DataHash.String(), hHeight))
 		}
 		m.headerCache.SetSeen(h.Hash().String())
+
+		// The DA includer is otherwise only signalled when a blob is seen on the DA layer, which
+		// happens before the block is applied: without this signal the last applied block would not
+		// be reported as DA-included until further blobs arrive.
+		m.sendNonBlockingSignalToDAIncluderCh()
 	}
 }
 
